@@ -40,11 +40,13 @@ let do_setmatch f =
   let (res, calls) = set_match_tr (nat_of_int n) rest rows in
   let calls_s = Stdlib.String.concat ","
       (List.map (fun (p, e) -> Printf.sprintf "%d:%d" (int_of_nat p) (int_of_nat e)) calls) in
-  let bf = brute_force (nat_of_int n) rest rows in
+  (* the extracted brute-force specification enumerates every injection: run it beside set_match on small cases only (the
+     agreement is a theorem, c10_brute_force_agrees; this is a sanity check of the extraction, not the tie) *)
+  let bf = if n <= 7 then Some (brute_force (nat_of_int n) rest rows) else None in
   let verdict = match res with
-    | SMPass -> if not bf then "pass-BRUTEFORCE-DISAGREES" else "pass"
+    | SMPass -> if bf = Some false then "pass-BRUTEFORCE-DISAGREES" else "pass"
     | SMFail (a, e) ->
-        (if bf then "fail-BRUTEFORCE-DISAGREES " else "fail ") ^ hex (ocaml_string a) ^ " " ^ opt_hex e in
+        (if bf = Some true then "fail-BRUTEFORCE-DISAGREES " else "fail ") ^ hex (ocaml_string a) ^ " " ^ opt_hex e in
   Printf.sprintf "%s calls=%s" verdict calls_s
 
 
